@@ -32,6 +32,7 @@ THEOREMS = [
     "C11_untagged_first_wins",
     "C11_simple_enum_first_match",
     "C11_constrained_display_not_emitted",
+    "C11_api_has_impl_internal",
     "C11_fmt_render_literal",
 ]
 
@@ -627,9 +628,11 @@ def run(ctx):
             compiled = w.status[i] == "ok"
             for tid, tname, ps in tl:
                 st = static[(i, tid)]
-                wired, wf, fin, hF, hD, eF, eT, eI, eD = st
+                wired, wf, fin, hF, hD, eF, eT, eI, eD, aF, aD = st
                 if MUT == "emits_display_hasimpl":
                     eD = hD
+                if MUT == "api_internal":     # model of the facade = internal has_impl (pre-0e25061 behaviour)
+                    aF, aD = hF, hD
                 e = g["dump"]["entries"][str(tid)]
                 kinds[e["kind"] + ":" + (e.get("constraints", {}).get("k", "") or e.get("tag", {}).get("k", ""))] = \
                     kinds.get(e["kind"] + ":" + (e.get("constraints", {}).get("k", "") or e.get("tag", {}).get("k", "")), 0) + 1
@@ -639,8 +642,11 @@ def run(ctx):
                 a = api.get(tid)
                 if a is not None:
                     n_cmp += 1
-                    if a["has_impl"]["FromStr"] != bool(hF) or a["has_impl"]["Display"] != bool(hD):
-                        mism.append({"case": name, "type": tname, "what": "has_impl", "api": a["has_impl"], "model": [hF, hD]})
+                    # public facade Type::has_impl vs model api_has_impl (the internal has_impl is tied through
+                    # the emitted impls below: it decides emission)
+                    if a["has_impl"]["FromStr"] != bool(aF) or a["has_impl"]["Display"] != bool(aD):
+                        mism.append({"case": name, "type": tname, "what": "Type::has_impl", "api": a["has_impl"],
+                                     "model_api": [aF, aD], "model_internal": [hF, hD]})
                 if wired and not wf:
                     mism.append({"case": name, "type": tname, "what": "wf_conv false on a real type space"})
                 if not compiled:
